@@ -188,7 +188,9 @@ var opts = scen.GenOpts{
 	Refresh:     true,
 	Restarts:    true,
 	RestartBias: true,
-	MaxSteps:    6,
+	// small resume limits: whether the limit is reached must not depend on where the session was restored
+	ResumeLimits: true,
+	MaxSteps:     6,
 	// a clock that stands still within a sprint makes equal timestamps common (anything ordered by time after a reload)
 	FrozenClocks: true,
 }
